@@ -197,7 +197,7 @@ def ops_case(cid, desc):
 
 
 # --------------------------------------------------------------------- running
-def run_go(ctx, cases, tag, wd_ms=None, timeout=1500):
+def run_go_one(ctx, cases, tag, wd_ms=None, timeout=1500):
     d = ctx.path("files_" + tag)
     shutil.rmtree(d, ignore_errors=True)
     os.makedirs(d)
@@ -206,17 +206,45 @@ def run_go(ctx, cases, tag, wd_ms=None, timeout=1500):
     env = {"VERIF_IN": vin, "VERIF_OUT": vout, "VERIF_DIR": d}
     if wd_ms:
         env["VERIF_WD_MS"] = str(wd_ms)
-    rc, out = ctx.go_test(PKG, FILES, "^TestZZVerifC20Run$", env=env, timeout=timeout)
-    shutil.rmtree(d, ignore_errors=True)
+    try:
+        # (the alternative that matches nothing gives every parallel shard its own overlay file
+        # name in vlib.go_test, which derives it from the -run expression)
+        rc, out = ctx.go_test(PKG, FILES, "^TestZZVerifC20Run$|^zz_%s$" % tag, env=env, timeout=timeout)
+    finally:
+        shutil.rmtree(d, ignore_errors=True)   # big files never outlive the run
     rows = vlib.read_ndjson(vout)
+    if not os.environ.get("VERIF_KEEP"):
+        os.remove(vin)
+        if os.path.exists(vout):
+            os.remove(vout)
     summ = [r for r in rows if r.get("k") == "summary"]
     if rc != 0 or not summ:
         raise vlib.Inconclusive("C20 harness did not complete (%s):\n%s" % (tag, out[-3000:]))
-    by = {}
-    for r in rows:
-        if "id" in r:
-            by.setdefault(r["id"], []).append(r)
-    return by, summ[0]
+    return rows, summ[0]
+
+
+def run_go(ctx, cases, tag, wd_ms=None, timeout=1500, shards=1):
+    """Run the cases through the Go harness (in `shards` parallel test processes; each holds at
+    most one case's files on disk at a time).  -> ({case id: records}, summary)"""
+    shards = max(1, min(shards, len(cases) // 20 or 1))
+    parts = [cases[i::shards] for i in range(shards)]
+    if shards == 1:
+        results = [run_go_one(ctx, parts[0], tag, wd_ms, timeout)]
+    else:
+        # the first build is done once, alone, so that the shards hit the build cache
+        first = run_go_one(ctx, parts[0][:1], tag + "_warm", wd_ms, timeout)
+        parts[0] = parts[0][1:]
+        with cf.ThreadPoolExecutor(max_workers=shards) as ex:
+            futs = [ex.submit(run_go_one, ctx, part, "%s_%d" % (tag, i), wd_ms, timeout) for i, part in enumerate(parts)]
+            results = [first] + [f.result() for f in futs]
+    by, summ = {}, {"cases": 0, "calls": 0, "hangs": 0}
+    for rows, sm in results:
+        for k in summ:
+            summ[k] += sm[k]
+        for r in rows:
+            if "id" in r:
+                by.setdefault(r["id"], []).append(r)
+    return by, summ
 
 
 def edge_table(vec):
@@ -367,29 +395,34 @@ def validate_traces(ctx, module, per_case, max_steps, parallel, timeout):
 
 
 # ------------------------------------------------------------------------ main
-def tlc_models(ctx):
-    """Half 1: the model-checking runs.  Returns (edge vectors, layouts)."""
+def tlc_generate(ctx):
+    """The vectors direction A starts from: the edge relation of every abstract log (QLogFileProps,
+    Pick only) and every scaled layout (QLogFileAlgMC, Pick only).  Seconds."""
     tier = "quick" if ctx.quick else "thorough"
     res = {}
+    res["pgen"] = ctx.tlc("QLogFileProps", "QLogFileProps.gen%s.cfg" % tier, workers=1, timeout=300)
+    res["gen"] = ctx.tlc("QLogFileAlgMC", "QLogFileAlgMC.gen.cfg", workers=1, timeout=300)
+    return res
+
+
+def tlc_models_start(ctx, res):
+    """Half 1: the exhaustive runs, started in the background while the Go harness works."""
+    tier = "quick" if ctx.quick else "thorough"
 
     def props():
-        res["props"] = ctx.tlc("QLogFileProps", "QLogFileProps.%s.cfg" % tier, workers=4, timeout=900, coverage=True)
+        res["props"] = ctx.tlc("QLogFileProps", "QLogFileProps.%s.cfg" % tier, workers=4, timeout=1500, coverage=True)
 
     def refine():
-        res["ref"] = ctx.tlc("QLogFileAlgMC", "QLogFileAlgMC.%s.cfg" % tier, workers=6 if ctx.quick else 8,
-                             timeout=1500, coverage=True)
+        res["ref"] = ctx.tlc("QLogFileAlgMC", "QLogFileAlgMC.%s.cfg" % tier, workers=4 if ctx.quick else 6,
+                             timeout=2400, coverage=True)
 
     def small():
-        res["gen"] = ctx.tlc("QLogFileAlgMC", "QLogFileAlgMC.gen.cfg", workers=1, timeout=300)
-        res["neg"] = ctx.tlc("QLogFileAlgMC", "QLogFileAlgMC.neg.cfg", workers=2, timeout=300, expect_violation=True)
+        res["neg"] = ctx.tlc("QLogFileAlgMC", "QLogFileAlgMC.neg.cfg", workers=1, timeout=300, expect_violation=True)
         res["empty"] = ctx.tlc("QLogFileAlgMC", "QLogFileAlgMC.empty.cfg", workers=1, timeout=300, expect_violation=True)
         res["live"] = ctx.tlc("QLogFileAlgMC", "QLogFileAlgMC.live.cfg", workers=2, timeout=900)
 
-    with cf.ThreadPoolExecutor(max_workers=3) as ex:
-        futs = [ex.submit(f) for f in (props, refine, small)]
-        for f in futs:
-            f.result()
-    return res
+    ex = cf.ThreadPoolExecutor(max_workers=3)
+    return ex, [ex.submit(f) for f in (props, refine, small)]
 
 
 def cov_counts(out):
@@ -459,26 +492,30 @@ def vacuity(res):
 def run(ctx):
     rng = random.Random(ctx.seed)
     tier = "quick" if ctx.quick else "thorough"
-    res = tlc_models(ctx)
-    edge_vecs = res["props"]["vectors"]
+    res = tlc_generate(ctx)
+    edge_vecs = res["pgen"]["vectors"]
     layouts = [v["lens"] for v in res["gen"]["vectors"]]
     if len(edge_vecs) < 100 or len(layouts) < 1000:
         raise vlib.Inconclusive("too few vectors: %d configs, %d layouts" % (len(edge_vecs), len(layouts)))
+    mc_pool, mc_futs = tlc_models_start(ctx, res)
+    try:
+        return run_binding(ctx, rng, tier, res, edge_vecs, layouts, mc_futs)
+    finally:
+        mc_pool.shutdown(wait=True)
 
-    probs, taken = vacuity(res)
-    if probs:
-        raise vlib.Inconclusive("vacuous: " + "; ".join(probs[:6]))
 
+def run_binding(ctx, rng, tier, res, edge_vecs, layouts, mc_futs):
     # ----------------------------------------------------------- A1: edge walk
     edge_vecs.sort(key=lambda v: json.dumps([v["level"], v["files"]], sort_keys=True))
     wcases = [walk_case(i + 1, v, ctx.seed * 1000003 + i) for i, v in enumerate(edge_vecs)]
     # --------------------------------------------- A2/B: layouts at real scale
     layouts.sort()
-    n_ops = 40 if ctx.quick else 400
+    n_ops = 40 if ctx.quick else 300
     forced = [l for l in layouts if len(l) == 6 and sum(x + 1 for x in l) in (12, 13, 23, 24)]
     rng.shuffle(forced)
     pool = [l for l in layouts if len(l) >= 1]
-    picked = forced[: n_ops // 5] + [rng.choice(pool) for _ in range(n_ops - n_ops // 5 - 1)] + [[]]
+    picked = forced[: n_ops // 5]
+    picked = picked + [rng.choice(pool) for _ in range(n_ops - len(picked) - 1)] + [[]]
     descs = []
     for i, l in enumerate(picked):
         units = sum(x + 1 for x in l)
@@ -489,7 +526,9 @@ def run(ctx):
         descs.append({"lens": l, "mode": mode, "level": level, "seed": ctx.seed * 7919 + i, "tier": tier})
     ocases = [ops_case(100000 + i, d) for i, d in enumerate(descs)]
 
-    by, summ = run_go(ctx, wcases + ocases, "main")
+    allc = wcases + ocases
+    rng.shuffle(allc)
+    by, summ = run_go(ctx, allc, "main", shards=3 if ctx.quick else 5)
     ctx.log("harness: %d cases, %d calls, %d hangs" % (summ["cases"], summ["calls"], summ["hangs"]))
 
     # ---- non-termination: re-run alone with a longer bound before reporting
@@ -498,12 +537,12 @@ def run(ctx):
     case_of = {c["id"]: c for c in wcases + ocases}
     desc_of = {100000 + i: d for i, d in enumerate(descs)}
     vec_of = {i + 1: v for i, v in enumerate(edge_vecs)}
-    for cid in hangs[:5]:
-        by2, _ = run_go(ctx, [case_of[cid]], "hang%d" % cid, wd_ms=120000)
+    for cid in hangs[:2]:
+        by2, _ = run_go(ctx, [case_of[cid]], "hang%d" % cid, wd_ms=60000)
         if any(r["k"] == "hang" for r in by2[cid]):
             last = [r for r in by2[cid] if r["k"] in ("edge", "op")][-1:]
             ctx.disagreement(None, {"kind": "hang", "case": _replay_case(cid, vec_of, desc_of, ctx.seed), "after": last},
-                             "a call did not return within 120 s (case %d)" % cid)
+                             "a call did not return within 60 s when re-run alone (case %d, after %s)" % (cid, json.dumps(last)[:300]))
         else:
             ctx.notes.append("case %d exceeded the 10 s watchdog once, returned in isolation" % cid)
     for cid in panics[:5]:
@@ -588,6 +627,7 @@ def run(ctx):
         nrec_abs, st_abs, ch_abs, nrec_alg, st_alg, ch_alg))
 
     ops_known = ops_bad = truncated = 0
+    alg_only = []
     again = sorted(set(list(bad_abs)[:20] + list(bad_alg)[:20]))
     if again:
         # reproduce: the rejected cases alone, harness and TLC, a second time
@@ -606,7 +646,16 @@ def run(ctx):
                 continue
             rec = [r for r in by2[cid] if r["k"] == "op" and r["oi"] == oi][0]
             rec = {k: (v if not isinstance(v, list) or len(v) <= 6 else v[:3] + ["..."] + v[-3:]) for k, v in rec.items()}
-            key = classify(c, rec) if which == "abstract" else None
+            if which == "algorithm":
+                if cid in bad_abs:
+                    continue        # the abstract-level rejection of this case is what gets reported
+                # The code returned what the statement asks for but did not follow the transcribed
+                # algorithm (bufferStart, depth, buffer reuse): not an observable of the property.
+                # The refinement proof no longer speaks about this code => inconclusive, not a violation.
+                alg_only.append("layout %s (%s) op %d %s: observed %s" % (
+                    desc_of[cid]["lens"], desc_of[cid]["mode"], oi, c["ops"][oi], json.dumps(rec, sort_keys=True)[:300]))
+                continue
+            key = classify(c, rec)
             ops_bad += 1
             if key:
                 ops_known += 1
@@ -615,6 +664,13 @@ def run(ctx):
                              "%s spec rejects op %d %s of layout %s (%s, %s, files with %s lines): observed %s" % (
                                  which, oi, c["ops"][oi], desc_of[cid]["lens"], desc_of[cid]["mode"], desc_of[cid]["level"],
                                  [len(f["ts"]) for f in c["files"]], json.dumps(rec, sort_keys=True)[:400]))
+
+    # ---- half 1 results (started before the harness)
+    for f in mc_futs:
+        f.result()
+    probs, taken = vacuity(res)
+    if probs and not ctx.violations:
+        raise vlib.Inconclusive("vacuous: " + "; ".join(probs[:6]))
 
     # ---- coverage
     sizes = sorted(sum(l + 1 for f in c["files"] for l in f["len"]) for c in ocases)
@@ -628,6 +684,10 @@ def run(ctx):
             raise vlib.Inconclusive("no op traces")
         if hangs and not any("watchdog" in n for n in ctx.notes):
             raise vlib.Inconclusive("hang observed but not settled")
+        if alg_only:
+            raise vlib.Inconclusive("the code answers as the statement requires but no longer follows specs/QLogFileAlg.tla "
+                                    "(direction B, %d cases): the refinement result does not transfer; re-transcribe the algorithm. "
+                                    "First: %s" % (len(alg_only), alg_only[0]))
     oc = ocases[len(ocases) // 2]
     samples.append({"ops_case": desc_of[oc["id"]], "bytes": [sum(l + 1 for l in f["len"]) for f in oc["files"]],
                     "lines": [len(f["ts"]) for f in oc["files"]],
@@ -663,7 +723,7 @@ def run(ctx):
         "TLC; the harness's line renderer / recogniser and its cursor projection (zz_verif_c20_test.go); "
         "the orchestrator's lossless run-length encoding of read results",
         "files are well-formed: every line newline-terminated, non-empty, shorter than 16 KiB, timestamps strictly increasing",
-        "a watchdog of 10 s per call (120 s on re-run) stands for 'never loops'"])
+        "a watchdog of 10 s per call (60 s when re-run alone) stands for 'never loops'"])
 
 
 def _replay_case(cid, vec_of, desc_of, seed):
@@ -681,7 +741,7 @@ def replay(ctx, path):
     if inner["kind"] == "walk":
         vec = inner["vec"]
         c = walk_case(inner["case_index"] + 1, vec, inner["seed"] * 1000003 + inner["case_index"])
-        by, _ = run_go(ctx, [c], "replay", wd_ms=120000)
+        by, _ = run_go(ctx, [c], "replay", wd_ms=60000)
         rows = by.get(c["id"], [])
         bad, _, _ = check_walk(vec, c, rows)
         hang = [r for r in rows if r["k"] in ("hang", "panic")]
@@ -689,7 +749,7 @@ def replay(ctx, path):
                           "observed_rejected_edges": bad[:10], "hang_or_panic": hang}, indent=1))
         return 1 if bad or hang else 0
     c = ops_case(1, inner["desc"])
-    by, _ = run_go(ctx, [c], "replay", wd_ms=120000)
+    by, _ = run_go(ctx, [c], "replay", wd_ms=60000)
     rows = by.get(1, [])
     hang = [r for r in rows if r["k"] in ("hang", "panic")]
     out = {"hang_or_panic": hang}
